@@ -282,7 +282,7 @@ def load_known(prop):
 # ----------------------------------------------------------------------------------------------
 
 class Ctx:
-    def __init__(self, prop, tier, seed):
+    def __init__(self, prop, tier, seed, clean=True):
         self.prop, self.tier, self.seed = prop, tier, seed
         self.t0 = time.time()
         self.rng = random.Random(seed * 1000003 + sum(ord(c) for c in prop))
@@ -293,7 +293,7 @@ class Ctx:
         self.level = "proof"
         os.makedirs(os.path.join(ROOT, "evidence"), exist_ok=True)
         os.makedirs(os.path.join(ROOT, "replays"), exist_ok=True)
-        for f in os.listdir(os.path.join(ROOT, "replays")):      # stale replays of earlier runs of this property
+        for f in os.listdir(os.path.join(ROOT, "replays")) if clean else []:   # stale replays of earlier runs
             if f.startswith(prop + "-"):
                 os.remove(os.path.join(ROOT, "replays", f))
 
@@ -313,15 +313,27 @@ class Ctx:
     def known(self, what):
         self.known_lines.append(what)
 
+    def has_input(self):
+        """True when a violation with a concrete failing input has been recorded."""
+        return any(not ni for _, ni in self.violations)
+
     def finish(self):
+        if any(not ni for _, ni in self.violations):
+            self.violations = [(p_, ni) for p_, ni in self.violations if not ni]
         ev = {
             "property_id": self.prop, "tier": self.tier, "seed": self.seed, "level": self.level,
             "coverage": self.cov, "assumptions": self.assumptions,
             "wall_s": round(time.time() - self.t0, 2), "violations": len(self.violations),
         }
-        with open(os.path.join(ROOT, "evidence", self.prop + ".json"), "w") as f:
+        evdir = os.path.join(ROOT, "evidence")
+        if REPO != "/repo":               # a run against a scratch tree (mutant testing) must not overwrite the evidence
+            evdir = os.path.join(BUILD, "evidence")
+            os.makedirs(evdir, exist_ok=True)
+        with open(os.path.join(evdir, self.prop + ".json"), "w") as f:
             json.dump(ev, f, indent=1, sort_keys=True)
             f.write("\n")
+        if any(not ni for _, ni in self.violations):
+            self.violations = [(p_, ni) for p_, ni in self.violations if not ni]
         for w in self.known_lines:
             print(f"KNOWN-FINDING: property={self.prop} {w}")
         for p, no_input in self.violations:
